@@ -22,6 +22,7 @@
 (* Conditions:                                                             *)
 (*   [t|->"def", m] [t|->"ndef", m] [t|->"val", m] [t|->"eq", m, n]        *)
 (*   [t|->"defand", m, m2] (defined(m) && m2) [t|->"const", n]             *)
+(*   [t|->"plus", m]  (m + 0)                                              *)
 (*   [t|->"bad"]  an expression a compiler would reject if it evaluated it *)
 (***************************************************************************)
 EXTENDS Naturals, Sequences, FiniteSets, TLC
@@ -57,6 +58,9 @@ Truth(c, defs) ==
     [] c.t = "defand" -> LET x == MacroNum(defs, c.m2) IN
                          \* the whole expression must parse even when short-circuited
                          [v |-> defs[c.m] # "U" /\ x.v # 0, err |-> x.err]
+    \* "M + 0": a valid expression also when M is defined EMPTY (then it is the unary "+ 0")
+    [] c.t = "plus"   -> IF defs[c.m] = "" THEN [v |-> FALSE, err |-> FALSE]
+                         ELSE LET x == MacroNum(defs, c.m) IN [v |-> x.v # 0, err |-> x.err]
     [] c.t = "const"  -> [v |-> c.n # 0, err |-> FALSE]
     [] c.t = "bad"    -> [v |-> FALSE, err |-> TRUE]
 
